@@ -30,6 +30,10 @@ structure Sc where
   pkts      : Std.HashMap (Nat × Nat) (List String) := {}
   awaitingAck : Array (Option Nat) := #[none, none]   -- per side: time a DATA packet arrived, unacknowledged
   metas     : List (Nat × List (String × String)) := []
+  seenTSN   : Std.HashMap (Nat × Nat) Unit := {}                 -- (side, tsn) already transmitted once
+  msgFirst  : Std.HashMap (Nat × Nat × Bool) (Array Nat) := {}    -- (side, si, U) ↦ first TSN of each message, in first-transmission order
+  fwdSeq    : Std.HashMap (Nat × Nat × Bool) Nat := {}            -- (side, si, U) ↦ largest SSN/MID named in a (I-)FORWARD-TSN stream entry
+  fwdMax    : Array (Option Nat) := #[none, none]                 -- per side: largest new cumulative TSN it put in a (I-)FORWARD-TSN
   shutdownOk : List Nat := []        -- sides whose Shutdown() returned nil
   lateHashes : List Nat := []        -- payload hashes of writes attempted after shutdown began
   deriving Inhabited
@@ -69,6 +73,43 @@ def checkTx (sc : Sc) (from_ len : Nat) (summary : List String) : Option String 
     else if chunks.any (·.startsWith "FWD:") && il then some "[C17,C04] FORWARD-TSN sent with interleaving"
     else if chunks.any isDataTok && len > getN sc.hdr "mtu" then some s!"[C10] packet with user data is {len} bytes, MTU is {getN sc.hdr "mtu"}"
     else none
+
+def serialLE (a b : Nat) : Bool := (b + 2^32 - a) % 2^32 < 2^31
+
+/-- wire bookkeeping for P_C07: which TSN ends each message (by first transmission), and the
+largest skip point each side announced. -/
+def noteTx (sc : Sc) (side : Nat) (summary : List String) : Sc := Id.run do
+  let mut sc := sc
+  for tok in summary do
+    let f := tok.splitOn ":"
+    match f with
+    | ["DATA", tsn, si, _ssn, _len, fl] | ["IDATA", tsn, si, _ssn, _, _len, fl] =>
+      let t := tsn.toNat?.getD 0
+      if !sc.seenTSN.contains (side, t) then
+        sc := { sc with seenTSN := sc.seenTSN.insert (side, t) () }
+        if fl.contains 'B' then
+          let k := (side, si.toNat?.getD 0, fl.contains 'U')
+          sc := { sc with msgFirst := sc.msgFirst.insert k ((sc.msgFirst.getD k #[]).push t) }
+    | "FWD" :: c :: entries :: _ | "IFWD" :: c :: entries :: _ =>
+      let c := c.toNat?.getD 0
+      let cur := sc.fwdMax[side]!
+      if cur.isNone || serialLE (cur.getD 0) c then sc := { sc with fwdMax := sc.fwdMax.set! side (some c) }
+      if entries != "none" then
+        for e in entries.splitOn "+" do
+          match e.splitOn "/" with
+          | [si, seq] =>   -- FORWARD-TSN: ordered stream sequence number (16 bit)
+            let k := (side, si.toNat?.getD 0, false)
+            let q := seq.toNat?.getD 0
+            let old := sc.fwdSeq[k]?
+            if old.isNone || (q + 65536 - old.getD 0) % 65536 < 32768 then sc := { sc with fwdSeq := sc.fwdSeq.insert k q }
+          | [si, u, mid] =>  -- I-FORWARD-TSN: (stream, U, message identifier)
+            let k := (side, si.toNat?.getD 0, u == "u")
+            let q := mid.toNat?.getD 0
+            let old := sc.fwdSeq[k]?
+            if old.isNone || serialLE (old.getD 0) q then sc := { sc with fwdSeq := sc.fwdSeq.insert k q }
+          | _ => pure ()
+    | _ => pure ()
+  return sc
 
 def msgsOf (sc : Sc) (dir si : Nat) : List Msg :=
   (sc.writes.toList.filter fun (d, s, _, ok) => d == dir && s == si && ok).map fun (_, _, m, _) => m
@@ -111,6 +152,28 @@ def checkFin (sc : Sc) (fin : List (String × String)) (leakNames : String) : Li
     else
       if !isSubMultiset rs ws then
         out := out ++ [s!"[C06] unordered partially reliable stream {st.id}: a read does not match a distinct written message"]
+    -- C07: a message that was not delivered must be one the sender told the peer to skip
+    if !reliable && sc.ended then
+      for cls in [false, true] do
+        let wsC := (sc.writes.toList.filter fun (d, s, m, ok) => d == st.dir && s == st.id && ok && ((st.unordered && m.ppi != 50) == cls)).map fun (_, _, m, _) => m
+        let firsts := sc.msgFirst.getD (st.dir, st.id, cls) #[]
+        let il := getB sc.hdr "ilA" && getB sc.hdr "ilB"
+        let mut k := 0
+        for m in wsC do
+          if !rs.contains m then
+            -- told to skip: named by a stream entry (sequence ≥ this message's), or the announced
+            -- cumulative point reached into the message
+            let bySeq := match sc.fwdSeq[(st.dir, st.id, cls)]? with
+              | some q => if il then serialLE k q else !cls && (q + 65536 - k % 65536) % 65536 < 32768
+              | none => false
+            let byTsn := match firsts[k]?, sc.fwdMax[st.dir]! with
+              | some first, some f => serialLE first f
+              | _, _ => false
+            if firsts[k]?.isNone then
+              out := out ++ [s!"[C07,C02] stream {st.id}: message #{k} (len {m.len}) was accepted but never transmitted"]
+            else if !(bySeq || byTsn) then
+              out := out ++ [s!"[C07] stream {st.id}: message #{k} (len {m.len}, first TSN {firsts[k]?.getD 0}) was never delivered although the sender never told the peer to skip it (largest skip point {sc.fwdMax[st.dir]!})"]
+          k := k + 1
     -- DCEP messages are always reliable and ordered
     let dcepW := ws.filter (·.ppi == 50)
     let dcepR := rs.filter (·.ppi == 50)
